@@ -104,6 +104,58 @@ let show_jres = function
 
 let denote_or_null (raw : n list) : dval = match json_denote raw with JOk d -> d | _ -> DNull
 
+(* input-object field defaults: the schema description of the harness' `ischema` line *)
+let the_schema : (n list * ifield list) list ref = ref []
+
+let rec ityp_of_sexp (x : sexp) : ityp =
+  match x with
+  | L [A "scalar"; _] -> IScalar
+  | L [A "list"; t] -> IList (ityp_of_sexp t)
+  | L [A "obj"; n] -> IObj (sbytes n)
+  | _ -> raise (Sexp_error ("ityp: " ^ print_sexp x))
+
+let schema_of_sexp (tys : sexp list) =
+  List.map (function
+      | L (n :: fs) ->
+        (sbytes n, List.map (function
+             | L [k; t; L [A "none"]] -> { if_name = sbytes k; if_type = ityp_of_sexp t; if_default = None }
+             | L [k; t; L [A "some"; d]] -> { if_name = sbytes k; if_type = ityp_of_sexp t; if_default = Some (gql_denote [] (value_of_sexp d)) }
+             | x -> raise (Sexp_error ("ifield: " ^ print_sexp x))) fs)
+      | x -> raise (Sexp_error ("ischema: " ^ print_sexp x))) tys
+
+let rec show_dval (d : dval) : string =
+  match d with
+  | DNull -> "null"
+  | DBool b -> if b then "true" else "false"
+  | DNum (neg, m, e) -> Printf.sprintf "%s%de%d" (if neg then "-" else "") (int_of_n m) (int_of_z e)
+  | DStr s -> quote_string (string_of_bytes s)
+  | DList l -> "[" ^ String.concat "," (List.map show_dval l) ^ "]"
+  | DObj m -> "{" ^ String.concat "," (List.map (fun (k, v) -> string_of_bytes k ^ ":" ^ show_dval v) m) ^ "}"
+
+(* first place where [want] is not found in [got]: path, wanted, received *)
+let rec first_diff (path : string) (want : dval) (got : dval) : (string * string * string) option =
+  match want, got with
+  | DList x, DList y when List.length x = List.length y ->
+    let rec go i x y = match x, y with
+      | a :: x', b :: y' -> (match first_diff (Printf.sprintf "%s[%d]" path i) a b with Some r -> Some r | None -> go (i + 1) x' y')
+      | _, _ -> None in
+    go 0 x y
+  | DObj x, DObj y ->
+    let rec go = function
+      | [] -> None
+      | (k, v) :: r ->
+        let p = path ^ "." ^ string_of_bytes k in
+        (match dobj_get k y with
+         | Some w -> (match first_diff p v w with Some d -> Some d | None -> go r)
+         | None -> Some (p, show_dval v, "(absent)")) in
+    (match go x with
+     | Some d -> Some d
+     | None -> if List.length x = List.length y then None else
+         (match List.find_opt (fun (k, _) -> dobj_get k x = None) y with
+          | Some (k, w) -> Some (path ^ "." ^ string_of_bytes k, "(absent)", show_dval w)
+          | None -> None))
+  | _, _ -> if dval_eqb want got then None else Some (path, show_dval want, show_dval got)
+
 type arginfo = Absent of string | Present of string * string (* var name, raw *) | NotVar
 
 let arg_infos (items : sexp list) : (string * arginfo) list =
@@ -331,6 +383,44 @@ let handle (x : sexp) : (string * string) list =
      (match l3 with
       | L (A "l3" :: A "ok" :: S vars :: gv :: _ :: a3) -> check_text_valid "l3" vars (sbool gv) cs; check "l3" (arg_infos a3) false
       | _ -> mismatch "default_extract" ("level 3 failed: " ^ short (print_sexp l3)))
+   | L (A "ischema" :: tys) -> the_schema := schema_of_sexp tys
+   | L [A "inp"; L [A "mode"; A mode]; L [A "arg"; S arg]; L [A "ty"; tyx]; vx; L [A "src"; S src]; L [A "cv"; S cv]; l1; l2; l3] ->
+     (* a value for an input type whose fields have defaults: what was supplied stays, what was omitted is defaulted *)
+     let v = value_of_sexp vx in
+     let ty = ityp_of_sexp tyx in
+     let d = gql_denote [] v in
+     let fuel = nat_of_int 40 in
+     nontrivial := depth v >= 1;
+     if !the_schema = [] then add "error" "inp case before the ischema line";
+     if not (lit_valid_b v) then add "error" "inp: generated value is not a valid literal";
+     (match l1 with
+      | L [A "l1"; A "ok"; S b; L [A "tree"; _]] -> check_value "l1" [] v true [] b
+      | L [A "l1"; A "skip"] -> ()
+      | _ -> mismatch "parse" ("inp level 1: " ^ short (print_sexp l1)));
+     let replay = Printf.sprintf "mode=%s query=%s variables=%s" mode (quote_string src) (quote_string cv) in
+     let check lvl args =
+       match List.assoc_opt arg (arg_infos args) with
+       | Some (Present (_, raw)) ->
+         (match json_denote (bytes_of_string raw) with
+          | JOk got ->
+            if not (supplied_preserved_b d got) then
+              (match first_diff arg d got with
+               | Some (p, w, g) -> specfail ("value_preserved/" ^ lvl) (Printf.sprintf "cause=unexplained supplied-member-changed at %s supplied=%s received=%s %s" p w g replay)
+               | None -> specfail ("value_preserved/" ^ lvl) ("cause=unexplained supplied-member-changed " ^ replay))
+            else if not (defaults_complete_b fuel !the_schema ty d got) then
+              (match first_diff arg (spec_defaults fuel !the_schema ty d) got with
+               | Some (p, w, g) -> specfail ("default_preserved/" ^ lvl) (Printf.sprintf "cause=unexplained omitted-member at %s expected=%s received=%s %s" p w g replay)
+               | None -> specfail ("default_preserved/" ^ lvl) ("cause=unexplained " ^ replay))
+          | JInvalid -> specfail ("vars_valid_json/" ^ lvl) ("cause=unexplained impl=" ^ quote_string (short raw) ^ " " ^ replay)
+          | JFuel -> add "error" "json_denote out of fuel")
+       | Some (Absent _) -> specfail ("value_preserved/" ^ lvl) ("cause=supplied-value-dropped " ^ replay)
+       | _ -> mismatch "extract" (lvl ^ ": argument " ^ arg ^ " is not a variable") in
+     (match l2 with
+      | L (A "l2" :: A "ok" :: S vars :: gv :: _ :: a2) -> check_text_valid "l2" vars (sbool gv) []; check "l2" a2
+      | _ -> mismatch "extract" ("inp level 2 failed: " ^ short (print_sexp l2)));
+     (match l3 with
+      | L (A "l3" :: A "ok" :: S vars :: gv :: _ :: a3) -> check_text_valid "l3" vars (sbool gv) []; check "l3" a3
+      | _ -> mismatch "upstream" ("inp level 3 failed: " ^ short (print_sexp l3)))
    | _ -> add "error" "unrecognised case");
   if !res = [] then [("ok", if !nontrivial then "nt" else "tr")] else List.rev !res
 
